@@ -228,14 +228,14 @@ func refBadfiltered(r *rules.NetworkRule, cands []*rules.NetworkRule, keys map[*
 func genC02(t *rapid.T) c02Case {
 	nl := rapid.IntRange(1, 3).Draw(t, "nlists")
 	c := c02Case{IDs: genListIDs(t, nl)}
-	hostsU := []string{"example.org", "www.example.org", "google.com", "a.com", "1.2.3.4", "notexample.org", "sub.example.org", "реклама.example", "счётчик.example", "abc.de", "track.track.example.net", "ab.cd.ab.cd", "ad-server.example.org", "ad_server.example.org", zeroHashNames[0], zeroHashNames[1]} // the last two hash to 0
+	hostsU := []string{"example.org", "www.example.org", "google.com", "a.com", "1.2.3.4", "notexample.org", "sub.example.org", "реклама.example", "счётчик.example", "abc.de", "track.track.example.net", "ab.cd.ab.cd", "ad-server.example.org", "ad_server.example.org", "example.org.evil.example", "example.organic.example", "abc.de.x.example", zeroHashNames[0], zeroHashNames[1]} // the last two hash to 0
 	for _, cp := range hostColliders[:3] {
 		hostsU = append(hostsU, cp[0], cp[1])
 	}
 	netPats := []string{"||example.org^", "||google.com^", "example", "a.com|", "||1.2.3.4^", "google", "||a.com^", "://1.2.", "|example.org|", "org",
 		"||реклама.example^", "счётчик", "||abc.de^", "||track.example.net^", ".track.example.net^", "||ab.cd^", "abc.de",
 		"/^Tracker[0-9]+\\.example\\.com/", "/Example\\.ORG/", "/^Ads[.-]/",
-		"/ad-server.", "/sub.", "/ad_server.", "/track.track."}
+		"/ad-server.", "/sub.", "/ad_server.", "/track.track.", "||example.org/*", "||abc.de/*", "example.org/*"}
 	for _, cp := range hostColliders[:3] {
 		netPats = append(netPats, "||"+cp[0]+"^", "||"+cp[1]+"^", cp[0][:4], "/^"+cp[0][:3]+"[0-9]/")
 	}
